@@ -1,0 +1,81 @@
+//go:build verif
+
+package cache
+
+// Contracts for the generic key-value LRU used for execution-unit selection
+// (property C13). View: l.order is the recency sequence, least recently used
+// first; it has no duplicates and its elements are exactly the cached keys.
+
+//@ mode int
+
+// noDup is stated over absolute positions of the backing array so that it
+// carries over to sub-slices (order[1:]) by plain instantiation.
+//@ spec func noDup(l *LRUCache) bool = forall a, b :: lo(l.order) <= a && a < b && b < hi(l.order) ==> at(l.order, a) != at(l.order, b)
+//@ spec func wfLRU(l *LRUCache) bool = l != nil && l.cache != nil && l.capacity >= 0 && len(l.order) == len(l.cache) && noDup(l) \
+//@    && (forall i :: 0 <= i && i < len(l.order) ==> l.order[i] in l.cache) \
+//@    && (forall k K :: k in l.cache ==> (exists i :: 0 <= i && i < len(l.order) && l.order[i] == k))
+
+//@ func slices.Contains
+//@   trusted
+//@   ensures result == (exists i :: 0 <= i && i < len(s) && s[i] == v)
+//@   assigns nothing
+
+//@ func NewLRUCache
+//@   requires capacity >= 0
+//@   ensures fresh(result) && result.capacity == capacity && len(result.order) == 0 && result.cache != nil && len(result.cache) == 0
+//@   ensures forall k K :: !(k in result.cache)
+//@   assigns nothing
+
+// refreshOrder moves key to the most-recently-used end (inserting it if it
+// was absent); every other key keeps its relative position.
+//@ func (*LRUCache).refreshOrder
+//@   chain
+//@   requires l != nil && noDup(l) && len(l.order) < 4611686018427387904
+//@   ensures len(l.order) >= 1 && l.order[len(l.order)-1] == key
+//@   ensures (forall i :: 0 <= i && i < len(old(l.order)) ==> old(l.order[i]) != key) ==> len(l.order) == len(old(l.order)) + 1 && (forall i :: 0 <= i && i < len(old(l.order)) ==> l.order[i] == old(l.order[i]))
+//@   ensures forall p :: 0 <= p && p < len(old(l.order)) && old(l.order[p]) == key ==> len(l.order) == len(old(l.order))
+//@   ensures forall p, i :: 0 <= p && p < len(old(l.order)) && old(l.order[p]) == key && 0 <= i && i < p ==> l.order[i] == old(l.order[i])
+//@   ensures forall p, i :: 0 <= p && p < len(old(l.order)) && old(l.order[p]) == key && p <= i && i < len(l.order) - 1 ==> l.order[i] == old(l.order[i+1])
+//@   ensures noDup(l)
+//@   assigns l.order, l.order[*]
+//@   loop 0: invariant 0 <= i && i <= len(l.order) && l.order == old(l.order)
+//@   loop 0: invariant forall j :: 0 <= j && j < i ==> l.order[j] != key
+
+// Get: a hit returns the cached value and moves the key to the MRU end.
+//@ func (*LRUCache).Get
+//@   chain
+//@   requires wfLRU(l) && len(l.order) < 4611686018427387904
+//@   ensures result1 == old(key in l.cache)
+//@   ensures result1 ==> result == old(l.cache[key]) && l.order[len(l.order)-1] == key && len(l.order) == len(old(l.order))
+//@   ensures !result1 ==> l.order == old(l.order)
+//@   ensures forall p, i :: result1 && 0 <= p && p < len(old(l.order)) && old(l.order[p]) == key && 0 <= i && i < p ==> l.order[i] == old(l.order[i])
+//@   ensures forall p, i :: result1 && 0 <= p && p < len(old(l.order)) && old(l.order[p]) == key && p <= i && i < len(l.order) - 1 ==> l.order[i] == old(l.order[i+1])
+//@   ensures noDup(l)
+//@   assigns l.order, l.order[*]
+
+// Find returns the least-recently-used key among `keys` and marks it most
+// recently used.
+//@ func (*LRUCache).Find
+//@   chain
+//@   requires wfLRU(l) && len(l.order) < 4611686018427387904
+//@   ensures result1 == (exists i, j :: 0 <= i && i < len(old(l.order)) && 0 <= j && j < len(keys) && old(l.order[i]) == old(keys[j]))
+//@   ensures forall p :: result1 && 0 <= p && p < len(old(l.order)) && (exists j :: 0 <= j && j < len(keys) && old(l.order[p]) == old(keys[j])) && (forall q :: 0 <= q && q < p ==> !(exists j :: 0 <= j && j < len(keys) && old(l.order[q]) == old(keys[j]))) ==> result == old(l.order[p])
+//@   ensures result1 ==> l.order[len(l.order)-1] == result && len(l.order) == len(old(l.order))
+//@   ensures !result1 ==> l.order == old(l.order)
+//@   ensures noDup(l)
+//@   assigns l.order, l.order[*]
+//@   loop 0: invariant l.order == old(l.order)
+//@   loop 0: invariant forall q :: 0 <= q && q < _idx0 ==> !(exists j :: 0 <= j && j < len(keys) && l.order[q] == keys[j])
+
+// Put: a new key into a full cache evicts the least recently used key
+// (order[0]); the key becomes most recently used.
+//@ func (*LRUCache).Put
+//@   chain
+//@   requires wfLRU(l) && len(l.order) < 4611686018427387904 && (len(l.cache) == l.capacity && !(key in l.cache) ==> l.capacity > 0)
+//@   ensures key in l.cache && l.cache[key] == value
+//@   ensures l.order[len(l.order)-1] == key
+//@   ensures old(!(key in l.cache) && len(l.cache) == l.capacity) ==> !(old(l.order[0]) in l.cache) || old(l.order[0]) == key
+//@   ensures old(!(key in l.cache) && len(l.cache) == l.capacity) ==> len(l.order) == len(old(l.order)) && (forall i :: 0 <= i && i < len(l.order) - 1 ==> l.order[i] == old(l.order[i+1]))
+//@   ensures forall k K :: k != key && !(old(!(key in l.cache) && len(l.cache) == l.capacity) && k == old(l.order[0])) ==> (k in l.cache) == old(k in l.cache) && l.cache[k] == old(l.cache[k])
+//@   ensures noDup(l)
+//@   assigns l.order, l.order[*], l.cache[*]
